@@ -25,6 +25,17 @@ GOENV.update({
 })
 
 
+def _excepthook(tp, val, tb):
+    """An exception of the driver itself is an engine error (exit 2), never a verdict (exit 1)."""
+    import traceback
+    traceback.print_exception(tp, val, tb)
+    print("ENGINE-ERROR: uncaught %s in the check driver" % tp.__name__, flush=True)
+    os._exit(2)
+
+
+sys.excepthook = _excepthook
+
+
 def log(*a):
     print(*a, file=sys.stderr, flush=True)
 
@@ -387,8 +398,18 @@ class Report:
         if self.engine_errors:
             for e in self.engine_errors:
                 print("ENGINE-ERROR: %s" % e)
-            sys.exit(2)
+            # a violation shown by one part of a check stands even if another part could not be built or run
+            sys.exit(1 if self.violations else 2)
         sys.exit(1 if self.violations else 0)
+
+    def try_build(self, fn, what, **kw):
+        """Builds one tier's harness; a tree against which it does not build (e.g. a changed signature of an
+        unexported function the harness calls) is an engine error of that tier, the other tiers still run."""
+        try:
+            return fn(**kw)
+        except SystemExit:
+            self.engine_errors.append("%s does not build against this tree" % what)
+            return None
 
 
 def tier_arg(argv):
